@@ -670,3 +670,97 @@ def run_fieldnull(prog, ctx=None):
     if n < 3:
         raise Broken("FIELDNULL: only %d uses of nullable pointer members in vtable methods" % n)
     return res
+
+
+def run_parkrestore(prog, ctx=None):
+    """PARKRESTORE: a scanner that terminates the current word in place parks the byte it overwrites (`X->S = *X->R;
+    *X->R = 0`, R the marker, S the parked byte).  Before a function drops the marker (`X->R = 0`) of an object it was
+    handed, the parked byte is back in the text (`*X->R = X->S`) or the marker is known to be null: otherwise the text stays
+    cut at the last word that was read and everything behind it is lost for reset, clone and the following elements.
+    Typestate over the marker with trace partitioning (parked? / restored-or-null)."""
+    res = Result("PARKRESTORE")
+    files = set(ctx.get("files", [])) if ctx else None
+    fs = funcs_of(prog, files)
+    # discover (R, S) pairs from the park idiom
+    pairs = set()
+    for f in fs:
+        for b, i, n in f.walk_all():
+            if n.get("k") == "bin" and n.get("op") == "=":
+                l = strip(n["a"], lvalue_to_rvalue=False)
+                r = strip(n["b"], all_casts=True)
+                if l.get("k") == "mem" and r.get("k") == "un" and r.get("op") == "*":
+                    p = strip(r["e"], all_casts=True)
+                    if p.get("k") == "mem" and norm(show(strip(p["b"], all_casts=True), f)) == norm(show(strip(l["b"], all_casts=True), f)):
+                        pairs.add((p["f"], l["f"], l.get("rec") or ""))
+    for R, S, rec in sorted(pairs):
+        for f in fs:
+            clears = []
+            for b, i, e in f.elements():
+                for n in walk_own(e):
+                    if n.get("k") == "bin" and n.get("op") == "=" and cval(n["b"]) == 0:
+                        l = strip(n["a"], lvalue_to_rvalue=False)
+                        if l.get("k") == "mem" and l.get("f") == R and (not rec or (l.get("rec") or "") == rec):
+                            clears.append((b, i, n, l))
+            if not clears:
+                continue
+            pids = {p["id"] for p in f.params}
+            PK = Analysis.PK
+
+            def is_R(x):
+                x = strip(x, all_casts=True)
+                return x.get("k") == "mem" and x.get("f") == R
+
+            def hook(an, blk, idx, el, st):
+                for n in walk_own(el):
+                    if n.get("k") == "bin" and n.get("op") == "=":
+                        l = strip(n["a"], lvalue_to_rvalue=False)
+                        if l.get("k") == "un" and l.get("op") == "*" and is_R(l["e"]):
+                            v = strip(n["b"], all_casts=True)
+                            if v.get("k") == "mem" and v.get("f") == S:
+                                st[PK] = "R"          # put back
+                            elif cval(n["b"]) == 0:
+                                st[PK] = "U"          # parked: the text is cut here
+
+            def edge_hook(an, blk, cond, truth, st):
+                c = strip(cond, all_casts=True)
+                neg = False
+                while c.get("k") == "un" and c.get("op") == "!":
+                    neg = not neg
+                    c = strip(c["e"], all_casts=True)
+                if is_R(c) and (truth == neg):
+                    st[PK] = "R"                      # marker null: nothing is parked
+
+            an = Analysis(prog, f, hook=hook, edge_hook=edge_hook)
+            st0 = an.entry_state()
+            st0[PK] = "U"
+            an.run(state=st0)
+            for b, i, n, l in clears:
+                root = root_of(l["b"])
+                fresh = False
+                if root is not None and root not in pids and root != 0:
+                    # object created here (allocation result), not one the function was handed
+                    own = True
+                    for b2, i2, m in f.walk_all():
+                        src = None
+                        if m.get("k") == "decl":
+                            for v in m["vars"]:
+                                if v["id"] == root and v.get("init") is not None:
+                                    src = v["init"]
+                        elif m.get("k") == "bin" and m.get("op") == "=":
+                            ll = strip(m["a"], lvalue_to_rvalue=False)
+                            if ll.get("k") == "ref" and ll["d"].get("id") == root:
+                                src = m["b"]
+                        if src is not None and root_of(src) in pids:
+                            own = False
+                    fresh = own
+                if fresh:
+                    res.ob("%s:%s at line %s" % (f.qn, norm(show(n, f)), n.get("l", f.line)), True, f, n.get("l", f.line) or f.line)
+                    continue
+                parts = an.pre_parts.get((b.id, i), {})
+                bad = "U" in parts or "*" in parts
+                res.ob("%s:%s at line %s" % (f.qn, norm(show(n, f)), n.get("l", f.line)), not bad, f, n.get("l", f.line) or f.line,
+                       "" if not bad else "`%s` drops the marker on a path where the byte parked in %s was not put back (`*%s = %s`) and the marker was not known to be null: the text stays cut behind the last word read" % (
+                           norm(show(n, f)), S, norm(show(l, f)), norm(show(l, f)).replace(R, S)))
+    if not pairs:
+        raise Broken("PARKRESTORE: no park idiom (X->S = *X->R) found in the files given")
+    return res
